@@ -11,8 +11,14 @@ Inductive aop :=
 | ARestart
 | APeek (k : N).
 
+(* Conc: one deterministic interleaving the harness forced on the real DB (a Release parked inside
+   its commit through the hook "sendToWriteCh.beforeSend" while another goroutine calls Next), as
+   the list of Sequence.v labels with what was observed at each: RPending = the call is parked in /
+   went through a commit, RInvalid on a NextCall = the call did not return while the other call of
+   the object was in flight (it waits for seq.lock); replayed with [step false]. *)
 Inductive case :=
-| Seq (steps : list (aop * result)).
+| Seq (steps : list (aop * result))
+| Conc (steps : list (label * result)).
 
 Definition result_eqb (a b : result) : bool :=
   match a, b with
@@ -78,6 +84,51 @@ Fixpoint replay (s : state) (steps : list (aop * result)) (i : N) (tags : list N
       else (false, [1000 + i])
   end.
 
+Definition ltags (s : state) (l : label) (r : result) : list N :=
+  match l with
+  | GetCall _ _ => [30]
+  | NextCall o =>
+      match st_objs s o with
+      | Some ob =>
+          match r, o_pc ob with
+          | RInvalid, Releasing _ _ => [20]       (* Next waits for the lock held by Release *)
+          | RInvalid, _ => [99]
+          | RNum _, _ => if existsb (fun j => match st_objs s j with
+                                               | Some oj => (o_key oj =? o_key ob) && negb (j =? o)
+                                                            && match o_pc oj with Releasing _ _ => true | _ => false end
+                                               | None => false end) (map N.of_nat (seq 0 (N.to_nat (st_nobj s))))
+                         then [21]                (* served from memory while another object's Release is in flight *)
+                         else [22]
+          | RPending, _ => [23]
+          | _, _ => [99]
+          end
+      | None => [98]
+      end
+  | RelCall _ => match r with RPending => [29] | _ => [99] end
+  | Ret o _ =>
+      match st_objs s o with
+      | Some ob =>
+          match o_pc ob, r with
+          | Releasing _ true, ROk => [24]
+          | Releasing _ false, ROk => [25]
+          | Refreshing _ _ true, RNum _ => [26]
+          | Refreshing _ _ false, ROk => [27]
+          | _, _ => [99]
+          end
+      | None => [98]
+      end
+  | Restart => [10]
+  end.
+
+Fixpoint replay_l (s : state) (steps : list (label * result)) (i : N) (tags : list N) : bool * list N :=
+  match steps with
+  | [] => (true, tags)
+  | (l, r) :: rest =>
+      let '(s', r') := step false s l in
+      if result_eqb r r' then replay_l s' rest (i + 1) (ltags s l r' ++ tags)
+      else (false, [2000 + i])
+  end.
+
 Fixpoint dedup (l : list N) (acc : list N) : list N :=
   match l with
   | [] => acc
@@ -87,4 +138,5 @@ Fixpoint dedup (l : list N) (acc : list N) : list N :=
 Definition run_case (c : case) : bool * list N :=
   match c with
   | Seq steps => let '(ok, t) := replay init steps 0 [] in (ok, if ok then dedup t [] else t)
+  | Conc steps => let '(ok, t) := replay_l init steps 0 [] in (ok, if ok then dedup t [] else t)
   end.
